@@ -129,6 +129,15 @@ fn do_negotiate(c: &Value, w: &mut Out) {
             Err(_) => json!("PANIC"),
         };
         w.emit(&json!({"ev": "Negotiate", "case": id, "api": "find_locale", "req": tags, "chosen": chosen}));
+        // the same request as the entries of an `Accept-Language: a, b, c` list arrive (a space in front of all but the first)
+        if tags.len() > 1 {
+            let spaced: Vec<String> = tags.iter().enumerate().map(|(i, t)| if i == 0 { t.clone() } else { format!(" {}", t) }).collect();
+            let chosen = match run_caught(|| Dyn::find_locale(&spaced)) {
+                Ok(d) => json!(d.as_str()),
+                Err(_) => json!("PANIC"),
+            };
+            w.emit(&json!({"ev": "Negotiate", "case": id, "api": "find_locale (entries as split from a header)", "req": tags, "chosen": chosen}));
+        }
         if tags.len() == 1 {
             if let Ok(langid) = tags[0].parse::<LanguageIdentifier>() {
                 let m = run_caught(|| Dyn::find_matchs(&langid));
@@ -179,13 +188,17 @@ fn loc(s: &str) -> Locale {
     Locale::from_str(s).unwrap_or_else(|_| panic!("driver: unknown locale {}", s))
 }
 
-fn header_text(h: &Value) -> Option<String> {
+fn header_text(h: &Value, hsp: &Value) -> Option<String> {
     let toks: Vec<&str> = h.as_array().unwrap().iter().map(|t| t.as_str().unwrap()).collect();
     if toks.is_empty() {
-        None
-    } else {
-        Some(toks.join(","))
+        return None;
     }
+    Some(match hsp.as_str().unwrap_or("tight") {
+        "spaced" => toks.join(", "),
+        "q" => toks.iter().enumerate().map(|(i, t)| format!("{};q=0.{}", t, 9 - i.min(8))).collect::<Vec<_>>().join(", "),
+        "star" => format!("{}, *;q=0.1", toks.join(", ")),
+        _ => toks.join(","),
+    })
 }
 
 fn cookie_header(cookie: &Value, name: &str) -> Option<String> {
@@ -262,7 +275,7 @@ impl World {
             .ssr_cookies_header_getter(move || jar.clone())
             .ssr_set_cookie(move |c: &cookie::Cookie| sc.lock().unwrap().push(c.to_string()))
             .on_error(Arc::new(|_| {}));
-        let header = header_text(&op["header_tags"]);
+        let header = header_text(&op["header_tags"], &op["hsp"]);
         let locales_opts = UseLocalesOptions::default().ssr_lang_header_getter(move || header.clone());
         let mut opts = I18nContextOptions::<Locale>::default()
             .enable_cookie(op["enable"].as_bool().unwrap())
@@ -282,7 +295,7 @@ impl World {
         let name = if op["custom"].as_bool().unwrap() { "my_locale" } else { "i18n_pref_locale" };
         let jar = cookie_header(&op["cookie"], name);
         let cookie_opts = leptos_i18n::context::CookieOptions::<Locale>::default().ssr_cookies_header_getter(move || jar.clone()).ssr_set_cookie(|_: &cookie::Cookie| {}).on_error(Arc::new(|_| {}));
-        let header = header_text(&op["header_tags"]);
+        let header = header_text(&op["header_tags"], &op["hsp"]);
         let locales_opts = UseLocalesOptions::default().ssr_lang_header_getter(move || header.clone());
         let mut opts = I18nContextOptions::<Locale>::default()
             .enable_cookie(op["enable"].as_bool().unwrap())
@@ -305,7 +318,7 @@ impl World {
             .ssr_cookies_header_getter(move || jar.clone())
             .ssr_set_cookie(move |c: &cookie::Cookie| sc.lock().unwrap().push(c.to_string()))
             .on_error(Arc::new(|_| {}));
-        let header = header_text(&op["header_tags"]);
+        let header = header_text(&op["header_tags"], &op["hsp"]);
         let locales_opts = UseLocalesOptions::default().ssr_lang_header_getter(move || header.clone());
         let initial = match op["initial"].as_str().unwrap() {
             "none" => None,
